@@ -140,8 +140,10 @@ prop("C06",
      rule="E1 per class and family: BFS over programs {s = build(state i), s' = dup(s), s.mutator_j (setters, done/re-init, remove*/to_array/iterator/get_keys.. with hand-back released by the program), del(s)} "
           "on two slots up to the depth bound; dedup by (observable value of both slots, bytes held); after every explored history the program deletes what it owns and the heap must equal its baseline; "
           "non-trivial = distinct reachable (value, held-bytes) states; in addition the complete str/ustr/mbuff operation histories of C01/C07 (every refused and every aliasing call included) are run with the same heap oracle",
-     bounds={"quick": "depth <= 4 per class (16 class/family systems); str/ustr/mbuff histories L=3 fixpoint", "thorough": "depth <= 6; str/ustr/mbuff histories L=4 fixpoint"},
-     runs=[dict(name="h_own", sources=["harness/h_own.c"], profile="asan", args={"quick": ["--depth=4"], "thorough": ["--depth=6"]}),
+     bounds={"quick": "depth <= 4 per class (16 class/family systems); str/ustr/mbuff histories L=3 fixpoint", "thorough": "depth <= 6; with the large builder states (70000-byte texts, 300-element containers) depth <= 4; str/ustr/mbuff histories L=4 fixpoint"},
+     runs=[dict(name="h_own", sources=["harness/h_own.c"], profile="asan", args={"quick": ["--depth=4"], "thorough": ["--depth=6", "--big=0"]}),
+           # the large builder states (70000-byte texts, 300-element containers) at the quick depth: each replay costs hundreds of allocations
+           dict(name="h_own_big", binary="h_own", sources=["harness/h_own.c"], profile="asan", tiers=["thorough"], args={"thorough": ["--depth=4", "--big=1"]}),
            # the complete C01/C07 operation alphabets (refused operations and aliasing included) with the allocator as the oracle
            dict(name="h_str_leak", sources=["harness/h_str.c"], profile="asan", wraps=["read"], cflags=["-DVERIF_LEAKRUN"],
                 args={"quick": ["--L=3", "--sigma=3", "--only=e1"], "thorough": ["--L=4", "--sigma=3", "--only=e1"]}),
@@ -267,12 +269,12 @@ prop("C20",
 # ---- the runtime debug level is part of "every configuration": each harness is run a second time with the library's
 # runtime debug level at 9999 (every compiled-in D_* statement evaluates its arguments, a failed ASSERT is fatal).  The
 # level runs use the quick-tier bounds where the thorough bounds are expensive.  C15, C16 and C20 set levels themselves.
-_DL_THOROUGH_AT_QUICK = {"C01", "C02", "C03", "C07", "C09", "C12", "C13", "C17"}
+_DL_THOROUGH_AT_QUICK = {"C01", "C02", "C03", "C06", "C07", "C09", "C12", "C13", "C17"}
 for _pid in ("C01", "C02", "C03", "C04", "C05", "C06", "C07", "C08", "C09", "C10", "C11", "C12", "C13", "C14", "C17", "C18", "C19"):
     _P = PROPS[_pid]
     _extra = []
     for _r in _P["runs"]:
-        if _r["name"].endswith("_leak") or _r["name"].endswith("_la") or "_hb" in _r["name"] or _r.get("profile") not in ("asan",):
+        if _r["name"].endswith("_leak") or _r["name"].endswith("_la") or _r["name"].endswith("_big") or "_hb" in _r["name"] or _r.get("profile") not in ("asan",):
             continue
         _d = dict(_r)
         _d["name"] = _r["name"] + "_dl"
